@@ -337,7 +337,23 @@ def render_fixed(prog, ch, opts=None):
         lay.features.add("mark:" + mark)
     label_right = ch.flag("label_right")
     step = ch.pick([2, 0], "fixindent")
+    only = opts.get("only")
+
+    class _Fixed:
+        """chooser stand-in for statements outside 'only': always default"""
+
+        def choose(self, n, tag=""):
+            return 0
+
+        def flag(self, tag=""):
+            return False
+
+        def pick(self, seq, tag=""):
+            return seq[0]
+
+    real_ch = ch
     for i, s in enumerate(stmts):
+        ch = real_ch if (only is None or i in only) else _Fixed()
         toks = stmt_toks(s)
         label = int(s.label) if s.label else None
         body = [t for t in toks if t.kind != "label"]
